@@ -19,6 +19,7 @@ type prePair struct {
 	seqName string
 	strict  bool
 	ints    bool // sp is another int parameter: parameter ip <= parameter sp (the bounds of a window)
+	rfield  string // sp == -2: the sequence is this field of the method's receiver (seqKey is its term inside the method)
 }
 
 type invPair struct{ f, s string }
@@ -594,6 +595,30 @@ func (a *idxAnalyzer) checkCallPre(z *zone, call *ast.CallExpr) {
 		if pp.ip >= len(call.Args) || pp.sp >= len(call.Args) {
 			continue
 		}
+		if pp.sp == -2 {
+			sk, ok0 := a.recvSeqAtCall(call, pp.rfield)
+			il, ok1 := a.lin(call.Args[pp.ip])
+			w := 0
+			rel := "<="
+			if pp.strict {
+				w, rel = -1, "<"
+			}
+			ok := ok0 && ok1 && a.proveLE(z, linSub(il, a.lenLin(sk)), w)
+			what := fmt.Sprintf("%s(…): argument %s %s len(receiver.%s)", id.Name(), exprStr(call.Args[pp.ip]), rel, pp.rfield)
+			dup := false
+			for i := range a.callObls {
+				if a.callObls[i].pos == call.Pos() && a.callObls[i].what == what {
+					dup = true
+					if !ok {
+						a.callObls[i].ok = false
+					}
+				}
+			}
+			if !dup {
+				a.callObls = append(a.callObls, idxCallObl{fn: a.curFn, pos: call.Pos(), what: what, ok: ok})
+			}
+			continue
+		}
 		if pp.ints {
 			il, ok1 := a.lin(call.Args[pp.ip])
 			jl, ok2 := a.lin(call.Args[pp.sp])
@@ -710,6 +735,13 @@ func (a *idxAnalyzer) summariseUnit(id types.Object, sig *types.Signature, ft *a
 			cands = append(cands, cand{-1, k})
 		}
 	}
+	rfieldOf := map[string]string{}
+	if f, ok := id.(*types.Func); ok {
+		for _, rf := range a.recvSeqFields(a.declOf[f]) {
+			cands = append(cands, cand{-2, rf[0]})
+			rfieldOf[rf[0]] = rf[1]
+		}
+	}
 	var facts []retFact
 	okIdx := -1
 	if n := sig.Results().Len(); n >= 2 {
@@ -780,7 +812,7 @@ func (a *idxAnalyzer) summariseUnit(id types.Object, sig *types.Signature, ft *a
 					}
 				}
 				if all {
-					facts = append(facts, retFact{res: ri, param: cd.param, seqKey: cd.seqKey, w: 0, lenOf: true, whenOK: cond})
+					facts = append(facts, retFact{res: ri, param: cd.param, seqKey: cd.seqKey, w: 0, lenOf: true, whenOK: cond, rfield: rfieldOf[cd.seqKey]})
 				}
 			}
 		}
@@ -895,6 +927,12 @@ func (a *idxAnalyzer) forwardedFact(z *zone, call *ast.CallExpr, ri int, seqKey 
 	}
 	for _, f := range a.retLE[id] {
 		if f.res != ri || !f.lenOf || (f.whenOK >= 0 && f.whenOK != cond) {
+			continue
+		}
+		if f.param == -2 {
+			if sk, ok := a.recvSeqAtCall(call, f.rfield); ok && a.proveLE(z, linSub(a.lenLin(sk), a.lenLin(seqKey)), 0) {
+				return true
+			}
 			continue
 		}
 		if f.param < 0 {
@@ -1032,6 +1070,11 @@ func (a *idxAnalyzer) runAll(fds []*ast.FuncDecl) {
 					for _, k := range cks {
 						pairs = append(pairs, prePair{ip: i, sp: -1, seqKey: k, seqName: captured[k], strict: lvl+1 == 2})
 					}
+					if f, ok := id.(*types.Func); ok {
+						for _, rf := range a.recvSeqFields(a.declOf[f]) {
+							pairs = append(pairs, prePair{ip: i, sp: -2, seqKey: rf[0], seqName: "receiver." + rf[1], rfield: rf[1], strict: lvl+1 == 2})
+						}
+					}
 				}
 				if len(pairs) == 0 {
 					a.preLevel[id] = 2
@@ -1120,6 +1163,25 @@ func (a *idxAnalyzer) runAll(fds []*ast.FuncDecl) {
 		for pi, p := range ps {
 			if p == nil || !isIntType(a.info.TypeOf(p)) {
 				continue
+			}
+			for _, rf := range a.recvSeqFields(fd) {
+				have := map[int]bool{}
+				for _, f := range a.retLE[id] {
+					if f.lenOf && f.param == -2 && f.rfield == rf[1] && f.whenOK < 0 {
+						have[f.res] = true
+					}
+				}
+				save := a.pre[id]
+				a.pre[id] = append(append([]prePair{}, save...), prePair{ip: pi, sp: -2, seqKey: rf[0], rfield: rf[1]})
+				a.analyseFunc(fd)
+				for _, f := range a.retLE[id] {
+					if f.lenOf && f.param == -2 && f.rfield == rf[1] && f.whenOK < 0 && !have[f.res] {
+						f.cond, f.needIP, f.needSP = true, pi, -2
+						cond = append(cond, f)
+					}
+				}
+				a.pre[id] = save
+				a.analyseFunc(fd)
 			}
 			for sj, sp := range ps {
 				if sp == nil || !a.track(a.info.TypeOf(sp)) {
